@@ -239,12 +239,19 @@ CHECKS = {
              "proved against the Standard's ends-in-a-number checker, the decimal kernel against the Standard's IPv4 parser, "
              "the port check against the port state). Model/CanParse.lean is the decision table of can_parse over (scanner "
              "answer, |input|, |base|, L); can_parse_size_logic(_scanner) proves it equal to 'parse base then input under L' for "
-             "all values given Expand3. L1: the Lean scanner answers t/f/n exactly like the C++ scanner on every generated "
-             "input (incl. a generator for the scanner's own grammar); can_parse is compared with parse under aimed limits.",
+             "all values given Expand3. Model/ParseValid.lean transcribes the validation-only instantiation "
+             "parse_url_impl<url_aggregator, false> (no stores, early returns at PATH_START / PATH / OPAQUE_PATH, of a base only "
+             "is_valid, type and has_opaque_path): validation_only_is_storing - its verdict is the verdict of the storing parser "
+             "model for every input and base, with no assumption; validation_only_is_parse(_base) - and hence the Standard's "
+             "(C01's side conditions; the base invariants needed are theorems: parse_inv, parse_noSlash); this discharges the "
+             "validIn / validBase hypotheses of the table. L1: the Lean scanner answers t/f/n exactly like the C++ scanner on "
+             "every generated input (incl. a generator for the scanner's own grammar); the validation-only model is run against "
+             "the real instantiation called directly (verdict; type / has_opaque_path of valid base runs); can_parse is compared "
+             "with parse under aimed limits.",
         design_ref="DESIGN.md §5 C08, §11.3",
         note="Expand3 (a normalized href is at most 3x its input) stays an explicit hypothesis (IDNA expansion is a parameter); "
-             "the AVX-512 variant of the IPv4 kernel is compared with the scalar one in C18, not modelled; the theorems are "
-             "about the WPT-validated Spec, tied to the C++ parser by C01's correspondence."),
+             "the AVX-512 variant of the IPv4 kernel is compared with the scalar one in C18, not modelled; the full parses on "
+             "can_parse's near-the-limit route are the aggregator parser of C04 (proved without a base, compared with one)."),
     "C12": dict(
         technique="Lean 4 proof: list-of-pairs refinement, serialize/parse round trip for all lists, comparator = UTF-16 "
                   "code-unit lexicographic order and strict weak order, stable merge sort lemmas; model-vs-code correspondence",
